@@ -175,8 +175,8 @@ def rule_K2(ctx):
     n_eval = 0
     for r in tab.values():
         c = r["c"]
-        for prv in (DUAL, NONE, 0, 0x0621, 0x0627):
-            for nxt in (DUAL, NONE, 0, 0x0621, 0x0627):
+        for prv in (DUAL, NONE, 0, 0x0621, 0x0627, 0x0640, 0x200d, 0x200c):
+            for nxt in (DUAL, NONE, 0, 0x0621, 0x0627, 0x0640, 0x200d, 0x200c):
                 jp, jn = canjoin(prv, c), canjoin(c, nxt)
                 want = r["m"] if jp and jn else r["f"] if jp else r["i"] if jn else r["c"]
                 want = want or c
